@@ -3,6 +3,7 @@ package props
 import (
 	"fmt"
 	"math"
+	"reflect"
 	"sort"
 	"strings"
 	"testing"
@@ -45,9 +46,32 @@ func filterTypeWide(t *rapid.T, maxAttrs int, withRels bool, wideOneIn int) gen.
 		})
 	}
 
+	// ID, Id and iD are field names like any other (only id is reserved).
+	if n <= 10 && rapid.IntRange(0, 9).Draw(t, "idlike") == 0 {
+		ts.Attrs = append(ts.Attrs, jsonapi.Attr{
+			Name:     rapid.SampledFrom([]string{"ID", "Id", "iD"}).Draw(t, "idlike-name"),
+			Type:     rapid.SampledFrom(gen.Kinds).Draw(t, "idlike-kind"),
+			Nullable: rapid.Bool().Draw(t, "idlike-nullable"),
+		})
+		sort.Slice(ts.Attrs, func(a, b int) bool { return ts.Attrs[a].Name < ts.Attrs[b].Name })
+	}
+
 	// Two names that differ by letter case only are two names.
+	casetwinOf := -1
+
 	if n <= 10 && rapid.IntRange(0, 7).Draw(t, "casetwin") == 0 {
-		i := rapid.IntRange(0, n-1).Draw(t, "casetwin-of")
+		casetwinOf = rapid.IntRange(0, n-1).Draw(t, "casetwin-of")
+
+		for _, a := range ts.Attrs {
+			if a.Name == strings.ToUpper(ts.Attrs[casetwinOf].Name) {
+				// (already there: an ID-like name, or the name has no lower-case letter)
+				casetwinOf = -1
+				break
+			}
+		}
+	}
+
+	if i := casetwinOf; i >= 0 {
 		ts.Attrs = append(ts.Attrs, jsonapi.Attr{
 			Name:     strings.ToUpper(ts.Attrs[i].Name),
 			Type:     rapid.SampledFrom([]int{ts.Attrs[i].Type, ts.Attrs[i].Type, rapid.SampledFrom(gen.Kinds).Draw(t, "casetwin-kind")}).Draw(t, "casetwin-samekind"),
@@ -81,6 +105,16 @@ func twins(ts *gen.TypeSpec, vals map[string]any) (soft, wrapped jsonapi.Resourc
 	soft = gen.NewResource(&st)
 	wrapped = gen.NewResource(&ss.Types[0])
 
+	// Every other wrapped twin ends up wrapping the struct by value, once it
+	// is filled (Wrap takes both; the wrapper then works on its own copy of
+	// the struct).
+	ptr := reflect.New(ss.Types[0].GoType)
+	byValue := len(vals)%2 == 1
+
+	if byValue {
+		wrapped = jsonapi.Wrap(ptr.Interface())
+	}
+
 	for _, k := range gen.SortedKeys(vals) {
 		// An empty to-many list is left unset: a wrapped struct then holds a
 		// nil slice and a soft resource its default empty list, which the
@@ -91,6 +125,10 @@ func twins(ts *gen.TypeSpec, vals map[string]any) (soft, wrapped jsonapi.Resourc
 
 		soft.Set(k, gen.Clone(vals[k]))
 		wrapped.Set(k, gen.Clone(vals[k]))
+	}
+
+	if byValue {
+		wrapped = jsonapi.Wrap(ptr.Elem().Interface())
 	}
 
 	return soft, wrapped
@@ -272,6 +310,21 @@ func newLeafVal(t *rapid.T, ts *gen.TypeSpec, vals map[string]any, n *gen.FNode)
 		}
 
 		nl := make([]string, len(old))
+
+		// A long list either misses altogether or hits exactly once (with a
+		// coin per element a long list practically always hits).
+		if len(old) >= 8 {
+			for i := range nl {
+				nl[i] = "zz-" + gen.IDString(t, "newid", true)
+			}
+
+			if h, ok := hit(); ok && rapid.Bool().Draw(t, "long-hits") {
+				nl[rapid.IntRange(0, len(nl)-1).Draw(t, "long-hit-at")] = h
+			}
+
+			return nl, true
+		}
+
 		for i := range nl {
 			if h, ok := hit(); ok && rapid.Bool().Draw(t, "newhit") {
 				nl[i] = h
